@@ -16,8 +16,8 @@ Definition ex_mb : mbinfo := mkMb 0
                     mkEntry 0x100000 0x7ee0000 5 [0; 0; 0; 0; 9; 9; 9; 9];
                     mkEntry 0xfffc0000 0x40000 0 [0; 0; 0; 0; 9; 9; 9; 9];
                     mkEntry 0x7fe0000 0x20000 3 [0; 0; 0; 0; 9; 9; 9; 9] ], []);
-    (* " a=b c  a=d" *)
-    (TCmdLine (mkCmd [32] [ (KV [97] [98], [32]); (Bare [99], [32; 9]); (KV [97] [100], []) ]), [0; 0; 0; 0]);
+    (* " a=b<U+2003>c \ta=d" : EM SPACE (e2 80 83) separates the first two entries *)
+    (TCmdLine (mkCmd [32] [ (KV [97] [98], [226; 128; 131]); (Bare [99], [32; 9]); (KV [97] [100], []) ]), [0; 0]);
     (TMemMap 24 0 [ mkEntry 0 0x1000 1 [0; 0; 0; 0] ], []);
     (TFramebuffer (mkFbTag 0xfd000000 4096 1024 768 32 1 0 [16; 8; 8; 8; 0; 8]), [0; 0]);
     (TElf 64 1 [ mkSec 0 0 0 0 0 0 0 0 0 0;
@@ -26,9 +26,21 @@ Definition ex_mb : mbinfo := mkMb 0
 
 Definition ex_layout : layout := mkLayout 0x200200000e20 [0; 0; 0; 0; 0; 0; 0; 0] ex_saddr [] ex_strtab.
 
+Lemma spaces_units us : Forall space_unit us -> spaces (concat us).
+Proof. intros H. exists us. split; [reflexivity | exact H]. Qed.
+
+Ltac spaces_auto :=
+  match goal with
+  | |- spaces [] => apply (spaces_units [])
+  | |- spaces [226; 128; 131] => apply (spaces_units [[226; 128; 131]])
+  | |- spaces [32] => apply (spaces_units [[32]])
+  | |- spaces [32; 9] => apply (spaces_units [[32]; [9]])
+  end;
+  repeat (apply Forall_cons; [first [left; eexists; split; reflexivity | right; cbn; tauto]|]); apply Forall_nil.
+
 Ltac wf_auto :=
   repeat first [ progress cbn [tag_wf fst snd entries_wf cmd_entry_wf c_lead c_entries]
-               | split | constructor | reflexivity | discriminate
+               | spaces_auto | split | constructor | reflexivity | discriminate
                | (intros _; vm_compute; discriminate) | (intro; discriminate) | solve [intuition congruence] ].
 
 Example C10_mbinfo_wf_nonvacuous : mbinfo_wf ex_saddr ex_strtab ex_mb.
@@ -79,7 +91,7 @@ Example C10_framebuffer_example :
     Ok (Some (mkFb 0xfd000000 4096 1024 768 32 1 (Some [16; 8; 8; 8; 0; 8]))).
 Proof. vm_compute. reflexivity. Qed.
 
-(** " a=b c  a=d" : the later a=d overrides a=b *)
+(** " a=b<EM SPACE>c \ta=d" : the Unicode space separates, the later a=d overrides a=b *)
 Example C10_cmdline_example :
   get_boot_cmdline (mem_of ex_layout (encode ex_mb)) (l_info ex_layout) = Ok [([97], [100]); ([99], [99])].
 Proof. vm_compute. reflexivity. Qed.
